@@ -284,6 +284,13 @@ def real_trace(tag, factory, first0, rng, quick):
                 if rows_h:
                     ev.append({"e": "Versus", "route": route, "rows": rows_h, "cls": ":fallback-halfline"})
                 base[(n, route)] = (vals, unit, dfn)
+        # x_nu(x) is x times the density
+        rows = []
+        for x in [-2.5, -0.7, -0.05, 0.03, 0.4, 1.7] + [rng.uniform(-2, 2) for _ in range(4)]:
+            a, b = float(nu0.x_nu(x)), x * float(nu0(x))
+            u = max(1e-9 * max(abs(a), abs(b)), 1e-300)
+            rows.append([quantise(a, u), quantise(b, u)])
+        ev.append({"e": "XNu", "rows": rows})
         # truncation histories on the real model: wrappers nest
         for _h in range(2 if quick else 4):
             model.levy_triplet.nu = nu0
